@@ -3,6 +3,7 @@
 
 stdin : py <id> async|sync <event> <event> ...
         py <id> norm <path> <path> ...
+        py <id> clia|clis <arg> <arg> ...   (command-line arguments through the real _handle_commands)
 stdout: <id> <outcome>                 (exactly one line per input line)
 
 Strings inside tokens are code points joined by '.', `e` = empty string.
@@ -432,11 +433,93 @@ def run_norm(tokens):
 
 
 # --------------------------------------------------------------------------
+# cli: the real `_handle_commands` of both clients against a recording interface
+# --------------------------------------------------------------------------
+class _RecIface:
+    """records what the command-line front end asks of the client: L(ist) G(et) D(ump) C(lear) S(et)"""
+
+    def __init__(self, log):
+        self.log = log
+
+    def _list(self, path):
+        self.log.append("L" + enc(path))
+        return []
+
+    def _get(self, path):
+        self.log.append("G" + enc(path))
+        return 0
+
+    def _dump(self, path):
+        self.log.append("D" + enc(path))
+
+    def _clear(self, path):
+        self.log.append("C" + enc(path))
+        return None
+
+    def _set(self, path, value, retain=False):
+        self.log.append("S" + enc(path) + "=" + enc(json.dumps(value, separators=(",", ":"), ensure_ascii=False)))
+
+
+class _RecSync(_RecIface):
+    def list(self, path):
+        return self._list(path)
+
+    def get(self, path):
+        return self._get(path)
+
+    def dump(self, path):
+        return self._dump(path)
+
+    def clear(self, path):
+        return self._clear(path)
+
+    def set(self, path, value, retain=False):
+        return self._set(path, value, retain)
+
+
+class _RecAsync(_RecIface):
+    async def list(self, path):
+        return self._list(path)
+
+    async def get(self, path):
+        return self._get(path)
+
+    async def dump(self, path):
+        return self._dump(path)
+
+    async def clear(self, path):
+        return self._clear(path)
+
+    async def set(self, path, value, retain=False):
+        return self._set(path, value, retain)
+
+
+def run_cli(variant, tokens):
+    import contextlib
+    import io
+    args = [dec(t) for t in tokens]
+    log = []
+    try:
+        with contextlib.redirect_stdout(io.StringIO()):
+            if variant == "clia":
+                asyncio.run(mc_async._handle_commands(_RecAsync(log), args, False))
+            else:
+                mc_sync._handle_commands(_RecSync(log), args, False)
+    except SystemExit:
+        log.append("X")
+    except Exception as e:  # noqa: BLE001
+        log.append(f"raise:{type(e).__name__}")
+    return " ".join(log) if log else "-"
+
+
+# --------------------------------------------------------------------------
 # main loop
 # --------------------------------------------------------------------------
 def run_case(variant, tokens):
     if variant == "norm":
         return run_norm(tokens)
+    if variant in ("clia", "clis"):
+        return run_cli(variant, tokens)
     events = [parse_event(t) for t in tokens]
     if variant == "async":
         async def limited():
